@@ -544,6 +544,31 @@ func C19(c *core.Ctx) {
 	}
 	_ = fmt.Sprint
 
+	// ---- R19.5 the routing daemon and the sync instance that replicates its prefix log do
+	// not take each other's locks in opposite orders: the lock-order graph over dv/… and
+	// std/sync (calls through interfaces and through callbacks stored in struct fields
+	// included) is acyclic. A cycle is a deadlock for some schedule: an announcement is
+	// added to the set but never published, and the daemon stalls on its mutex.
+	{
+		edges := core.LockOrder(p, []string{"dv/dv", "dv/table", "dv/nfdc", "std/sync"})
+		cycles := core.LockCycles(edges)
+		c.Extra["lock_order_edges"] = len(edges)
+		if len(cycles) == 0 {
+			c.Ok("R19.5", "lock-order-acyclic", "-", fmt.Sprintf("%d lock-order edges, no cycle", len(edges)))
+		}
+		for _, cy := range cycles {
+			a, b := cy[0], cy[1]
+			via := func(e core.LockOrderEdge) string {
+				if e.Via == "" {
+					return "locks it directly"
+				}
+				return "calls " + e.Via
+			}
+			c.Viol("R19.5", "lock-order-acyclic:"+a.From+"<>"+a.To, c.Pos(a.At), fmt.Sprintf("%s is held at %s while %s can be acquired (%s), and on another path %s is held at %s while %s (towards %s) can be acquired (%s): two goroutines taking them in these orders deadlock", a.From, c.Pos(a.At), a.To, via(a), b.From, c.Pos(b.At), b.To, a.From, via(b)))
+		}
+		c.Floor("R19.5", "lock-order edges in the routing daemon and its sync instance", len(edges), 1)
+	}
+
 	// ---- R19.4 the "fetch in progress" mark of a router's prefix log is typestate: once it
 	// is set, every way out of prefixDataFetch either leaves an Interest in flight (whose
 	// callback clears the mark) or clears the mark itself. The engine does not call the
